@@ -360,3 +360,120 @@ def search_kernels(names=("sum", "max", "min", "prod", "nansum", "nanmax", "nanm
         return None
 
     return search
+
+
+# ---------------------------------------------------------------------------------------------
+# ffill(group_idx, array, *, axis)  - grouped forward fill on sorted codes (C10.ffill_kernel)
+# ---------------------------------------------------------------------------------------------
+
+
+def ffill_contract():
+    """Sorted codes (the path `_prepare_for_flox` takes when the codes are already sorted: it returns its arguments and
+    perm = slice(None); the unsorted path adds a stable permutation and its inverse around the same code and is covered by
+    the conformance test of generic_aggregate(ffill) and the bounded part)."""
+
+    def params(ex):
+        return {"group_idx": sym_seq("group_idx"), "array": sym_seq("array", V.Val), "axis": 0, "kwargs": {}}
+
+    def requires(ex, env):
+        gi, a = env["group_idx"], env["array"]
+        i = fresh("i")
+        return [gi.length == a.length, gi.length >= 1, forall(i, z3.Implies(in_range(i, 0, gi.length - 1), gi.at(i) <= gi.at(i + 1)))]
+
+    def callee_prepare(ex, st, args, kwargs, node):
+        gi, a = args
+        i = fresh("i")
+        ex.oblige(st, z3.And(gi.length == a.length, forall(i, z3.Implies(in_range(i, 0, gi.length - 1), gi.at(i) <= gi.at(i + 1)))), ex._name("pre._prepare_for_flox.sorted", node),
+                  "this contract covers the path of _prepare_for_flox for codes that are already sorted (proved contract: returns its arguments, perm = slice(None))")
+        return (gi, a, slice(None, None))
+
+    def run_start(gi, j):
+        return z3.Or(j == 0, gi.at(j) != gi.at(j - 1))
+
+    def cut_idx(ex, env):
+        """after the running maximum: lemmas by induction over positions"""
+        st = env["__state__"]
+        idx, gi, a = env["idx"], env["group_idx"], env["array"]
+        if not hasattr(idx, "running_max_of"):
+            return []
+        x, M = idx.running_max_of
+        n = a.length
+        masked = lambda j: z3.And(V.is_nan(a.at(j)), z3.Not(run_start(gi, j)))
+        t, j = fresh("t"), fresh("j")
+        ex.prove_induction(st, name="SOURCE_IN_RANGE", k=t, lo=0, hi=n - 1, prop=lambda u: z3.And(M(u) >= 0, M(u) <= u), patterns=lambda u: [M(u)])
+        ex.prove_induction(st, name="SOURCE_IS_VALID_OR_RUN_START", k=t, lo=0, hi=n - 1, prop=lambda u: z3.Not(masked(M(u))), patterns=lambda u: [M(u)])
+        ex.prove_induction(st, name="SOURCE_IN_THE_SAME_RUN", k=t, lo=0, hi=n - 1, prop=lambda u: gi.at(M(u)) == gi.at(u), patterns=lambda u: [M(u)])
+        ex.prove_induction(st, name="EVERYTHING_AFTER_THE_SOURCE_IS_MASKED", k=t, lo=0, hi=n - 1, prop=lambda u: forall(j, z3.Implies(z3.And(j > M(u), j <= u), masked(j))), patterns=lambda u: [M(u)])
+        return []
+
+    def ensures(ex, env, res):
+        from .scan import ffill_spec
+
+        e = env["__entry__"]
+        gi, a = e["group_idx"], e["array"]
+        cl = [("aligned_with_the_input", res.length == a.length)]
+        cl += ffill_spec(gi, a, res)
+        return cl
+
+    def lemmas(ex, env):
+        gi = env["group_idx"]
+        i0, t = fresh("i0"), fresh("t")
+        n = gi.length
+        return [dict(name="SORTED_PAIRWISE", k=t, lo=i0, hi=n - 1, prop=lambda x: gi.at(i0) <= gi.at(x), generalize=[i0], guard=z3.And(i0 >= 0, i0 < n), patterns=lambda x: [z3.MultiPattern(gi.at(i0), gi.at(x))])]
+
+    c = Contract(qualname="ffill", file="flox/aggregate_flox.py", prefix="C10.ffill_kernel.sorted", params=params, requires=requires, ensures=ensures, lemmas=lemmas, serves=("C10",),
+                 assumed=("np.maximum.accumulate is the running maximum", "ndarray.nonzero / scatter store of a scalar / np.where / np.arange", "1-D view of the filled axis"))
+    c.cuts = {"idx@out": cut_idx}
+    c.replay = replay_ffill
+    c.search = search_ffill
+    callees = {"_prepare_for_flox": callee_prepare, "isnull": callee_isnull}
+    return c, callees
+
+
+def _ffill_reference(codes, vals):
+    out, seen = [], {}
+    for g, v in zip(codes, vals):
+        if v == v:
+            seen[g] = v
+        out.append(seen.get(g, float("nan")))
+    return out
+
+
+def _ffill_check(codes, vals):
+    import numpy as np
+
+    from flox.aggregate_flox import ffill
+
+    got = ffill(np.array(codes, dtype="int64"), np.array(vals, dtype="float64"), axis=0)
+    exp = _ffill_reference(codes, vals)
+    ok = len(got) == len(exp) and all((a == b) or (a != a and b != b) for a, b in zip(np.asarray(got).tolist(), exp))
+    return ok, np.asarray(got).tolist(), exp
+
+
+def replay_ffill(cm):
+    import json
+
+    from .finalize import _val_to_float
+
+    codes = [int(c) for c in cm["group_idx"]]
+    vals = [_val_to_float(v) for v in cm["array"]]
+    if len(codes) != len(vals) or not codes or any(a > b for a, b in zip(codes, codes[1:])):
+        return None, "outside the precondition (sorted codes, aligned, non-empty)"
+    ok, got, exp = _ffill_check(codes, vals)
+    return (not ok), json.dumps({"verdict": "held" if ok else "violated", "input": {"codes": codes, "values": [repr(v) for v in vals]}, "got": [repr(v) for v in got], "expected": [repr(v) for v in exp]})
+
+
+def search_ffill():
+    import itertools
+
+    nan = float("nan")
+    for n in (1, 2, 3, 4):
+        for codes in itertools.combinations_with_replacement((0, 1, 2), n):  # sorted code sequences
+            for vals in itertools.product((1.0, nan, 2.0), repeat=n):
+                try:
+                    ok, got, exp = _ffill_check(list(codes), list(vals))
+                except Exception as e:
+                    return {"group_idx": list(codes), "array": [repr(v) for v in vals]}, f"raised {type(e).__name__}: {e}"
+                if not ok:
+                    return {"group_idx": list(codes), "array": [repr(v) for v in vals]}, f"got {got} expected {exp}"
+    return None
